@@ -4,6 +4,7 @@ import LoraVerif.Lemmas.ExceptLemmas
 import LoraVerif.Lemmas.RefineNb
 import LoraVerif.Lemmas.ExpiredC
 import LoraVerif.Lemmas.ChainC
+import LoraVerif.Lemmas.RefineListen
 /-!
 # C06 — uplink frame counters never repeat within a session
 
@@ -2199,3 +2200,87 @@ end C06
 #print axioms C06.historyC_expired_reported
 #print axioms C06.async_fcnt_strict
 #print axioms C06.nb_fcnt_strict
+
+/-! ## `Device::rxc_listen` (builder Q) -/
+namespace C06
+
+/-- **a call of `rxc_listen` never sends, and advances `fcnt_up` by exactly one iff it answers
+`DownlinkReceived`** (every state, every script; no hypothesis): no transmission is logged; the uplink
+counter of the session after the call is the one before plus one exactly when `DownlinkReceived` is
+answered and is unchanged otherwise; `SessionExpired` is answered only at the exhausted counter
+`2^32 − 1`, which then stays — so a listen call can neither make a later uplink reuse a counter nor wrap it. -/
+theorem async_listen_fcnt (r : DevRun) (res : ListenResult) (r' : DevRun) (h : asyncListen r = .ok (res, r')) :
+    NoTxSince r r' ∧
+    ((∃ n, res = .ok (.downlinkReceived n)) ↔ ∃ u, r.m.fcntUp? = some u ∧ r'.m.fcntUp? = some (u + 1)) ∧
+    ((∀ n, res ≠ .ok (.downlinkReceived n)) → r'.m.fcntUp? = r.m.fcntUp?) ∧
+    (res = .ok .sessionExpired → r.m.fcntUp? = some 0xFFFFFFFF) := by
+  obtain ⟨outs, _, hrel⟩ := asyncListen_refines (σ := Unit) (fun s => (0, s)) () r res r' h
+  refine ⟨hrel.calls, ?_⟩
+  have hf := hrel.fcnt
+  unfold ListenFcnt at hf
+  have hstay : ∀ {a b : Option Nat}, b = a → ¬ ∃ u, a = some u ∧ b = some (u + 1) := by
+    rintro a b rfl ⟨u, h1, h2⟩
+    rw [h1] at h2
+    simp only [Option.some.injEq] at h2
+    omega
+  have hother : ∀ res0 : ListenResult, (∀ n, res0 ≠ .ok (.downlinkReceived n)) → res0 ≠ .ok .sessionExpired →
+      r'.m.fcntUp? = r.m.fcntUp? →
+      ((∃ n, res0 = .ok (.downlinkReceived n)) ↔ ∃ u, r.m.fcntUp? = some u ∧ r'.m.fcntUp? = some (u + 1)) ∧
+      ((∀ n, res0 ≠ .ok (.downlinkReceived n)) → r'.m.fcntUp? = r.m.fcntUp?) ∧
+      (res0 = .ok .sessionExpired → r.m.fcntUp? = some 0xFFFFFFFF) := by
+    intro res0 h1 h2 h3
+    refine ⟨⟨?_, fun hx => absurd hx (hstay h3)⟩, fun _ => h3, fun he => absurd he h2⟩
+    rintro ⟨n, he⟩
+    exact absurd he (h1 n)
+  cases res with
+  | ok resp =>
+    cases resp with
+    | downlinkReceived n =>
+      obtain ⟨u, h1, _, h2⟩ := hf
+      exact ⟨⟨fun _ => ⟨u, h1, h2⟩, fun _ => ⟨n, rfl⟩⟩, fun hne => absurd rfl (hne n), fun he => (by cases he)⟩
+    | sessionExpired =>
+      refine ⟨⟨?_, fun hx => absurd hx (hstay hf.2.1)⟩, fun _ => hf.2.1, fun _ => hf.2.2⟩
+      rintro ⟨n, he⟩
+      cases he
+    | noAck => exact absurd hf.1 (by simp)
+    | noJoinAccept => exact absurd hf.1 (by simp)
+    | joinSuccess => exact absurd hf.1 (by simp)
+    | noUpdate => exact absurd hf.1 (by simp)
+    | rxComplete => exact absurd hf.1 (by simp)
+  | errRadio => exact hother _ (fun n => by simp) (by simp) (by rw [hf.1])
+  | errMac => exact hother _ (fun n => by simp) (by simp) (by rw [hf.1])
+  | listening => exact hother _ (fun n => by simp) (by simp) (by rw [hf.1])
+
+/-- **uplink counters never repeat in sessions with listen calls.**  A session of sends, joins, setters and
+`rxc_listen` calls (either class, any scripts) that returns is a run of the extended history
+`abstractCalls` of its calls, its outputs are the front-end's answers call by call (`SessObs`), and along
+that history every data frame handed to the radio carries a counter strictly above the previous one of
+the same session until `SessionExpired` is reported (`FcntStrict`, as `runC_fcnt_strict`): the Class C
+receptions of a listen call move `fcnt_up` forward only (`async_listen_fcnt`). -/
+theorem asyncCalls_fcnt_strict {σ} (g : Rng σ) (cfg : DevCfg) (d : DevRun) (rs : σ) (calls : List AsyncCall)
+    (obs : List CallObs) (d' : DevRun) (rs' : σ) (h : asyncCalls g cfg d rs calls = .ok (obs, d', rs')) :
+    ∃ ocs, runC g (d.m, rs) (abstractCalls g cfg (d.m, rs) calls) = .ok ((d'.m, rs'), ocs) ∧ SessObs calls obs ocs ∧
+      FcntStrict (some 0) (((abstractCalls g cfg (d.m, rs) calls).map projEv).zip (ocs.map (fun oc => oc.out))) := by
+  obtain ⟨ocs, hrun, hobs⟩ := asyncCalls_runC g cfg d rs calls obs d' rs' h
+  exact ⟨ocs, hrun, hobs,
+    runC_fcnt_strict g d.m rs _ (d'.m, rs') ocs (some 0) (fun _ e _ _ => by cases e; exact Nat.zero_le _) hrun⟩
+
+/-! non-vacuity: a device at `fcnt_up = 2^32 − 2` hears an authentic frame (counter moves to `2^32 − 1`),
+listens again and hears the next one: `SessionExpired`, the counter stays -/
+
+def lateListen : DevRun :=
+  { m := { (macJoinAbp (MacState.init (RegionState.init .EU868) 14 0) 7 1 2) with
+      st := .joined { Session.new 7 1 2 with fcntUp := 4294967294 } },
+    script := [.frame 0 (.data { len := 14, confirmed := false, fcnt16 := 1, micFcnt := some 1, fopts := [], fport := some 1, payload := [1] })],
+    calls := [], downlinks := [] }
+
+example : (asyncListen lateListen).toOption.map (fun x => (x.1, x.2.m.fcntUp?, x.2.calls)) =
+    some (.ok (.downlinkReceived 1), some 4294967295, [.rxContinuous]) := by decide +kernel
+example : ((asyncListen lateListen).toOption.bind (fun x => (asyncListen { x.2 with script :=
+      [.frame 0 (.data { len := 14, confirmed := false, fcnt16 := 2, micFcnt := some 2, fopts := [], fport := some 1, payload := [2] })] }).toOption)).map
+    (fun x => (x.1, x.2.m.fcntUp?)) = some (.ok .sessionExpired, some 4294967295) := by decide +kernel
+
+end C06
+
+#print axioms C06.async_listen_fcnt
+#print axioms C06.asyncCalls_fcnt_strict
